@@ -236,6 +236,7 @@ func (s *session) commit(r *sessionRecord, trivial bool) (err error) {
 	// finally, apply new version if no error rise
 	if err == nil {
 		s.setVersion(r, nv)
+		verifCommitted(s, r, nv, trivial)
 	}
 
 	return
